@@ -322,13 +322,27 @@ func copyTree(src, dst string) {
 
 // ---- reading the resulting .hyd --------------------------------------------------------------------------
 
+// hydTerm classifies the target path the way the model's prehyd does: nothing; shorter than the
+// header (+ name) = what the writer's open creates again; otherwise what the real reader returns.
 func hydTerm(in *intern, path string) string {
-	if _, err := os.Stat(path); err != nil {
-		return "None"
+	fi, err := os.Stat(path)
+	if err != nil {
+		return "PreNone"
+	}
+	raw, _ := os.ReadFile(path)
+	if fi.Size() < int64(v2.FileHeaderSize) {
+		return "PreShort"
+	}
+	var h v2.FileHeader
+	if err := h.Deserialize(raw[:v2.FileHeaderSize]); err != nil {
+		return "(PreFile FBad)"
+	}
+	if fi.Size() < h.DataStartOffset() {
+		return "PreShort"
 	}
 	fr, err := v2.NewFileReader(path)
 	if err != nil {
-		return "(Some (FTorn 0 []))"
+		return "(PreFile FBad)"
 	}
 	defer fr.Close()
 	var es []string
@@ -352,9 +366,9 @@ func hydTerm(in *intern, path string) string {
 		return true
 	})
 	if err != nil {
-		return "(Some (FTorn 0 []))"
+		return "(PreFile (FTorn 0 []))"
 	}
-	return fmt.Sprintf("(Some (FGood %d [%s]))", in.pay(fr.GetSwampName()), strings.Join(es, "; "))
+	return fmt.Sprintf("(PreFile (FGood %d [%s]))", in.pay(fr.GetSwampName()), strings.Join(es, "; "))
 }
 
 // ---- one migration case ----------------------------------------------------------------------------------
@@ -364,6 +378,7 @@ const (
 	fPreGood
 	fPreTorn
 	fPreGarbage
+	fPreCorrupt
 	fGarbledChunk
 	fTruncChunk
 	fBadSegment
@@ -374,7 +389,7 @@ const (
 	fKinds
 )
 
-var faultName = []string{"none", "preexisting_hyd_valid", "preexisting_hyd_torn", "preexisting_hyd_garbage", "garbled_chunk", "truncated_chunk", "undecodable_segment", "non_v1_file_in_folder", "meta_missing", "key_in_two_chunks", "rlimit_fsize_during_v2_write"}
+var faultName = []string{"none", "preexisting_hyd_valid", "preexisting_hyd_torn", "preexisting_hyd_garbage", "preexisting_hyd_corrupt_block", "garbled_chunk", "truncated_chunk", "undecodable_segment", "non_v1_file_in_folder", "meta_missing", "key_in_two_chunks", "rlimit_fsize_during_v2_write"}
 
 type caseOut struct {
 	term       string
@@ -428,12 +443,12 @@ func runCase(rng *common.Rng, self, template, work string, dry, verify, del bool
 		}
 		return l
 	}
-	pre := "None"
+	pre := "PreNone"
 	if fault == fNoMeta && len(chunks()) == 0 {
 		fault = fNone // a folder with neither meta nor chunk files is not a V1 swamp folder at all
 	}
 	switch fault {
-	case fPreGood, fPreTorn:
+	case fPreGood, fPreTorn, fPreCorrupt:
 		w, _ := v2.NewFileWriterWithName(hydPath, 256, "old/target/file")
 		for i := 0; i < 3; i++ {
 			tr := treasure.New(nil)
@@ -453,10 +468,19 @@ func runCase(rng *common.Rng, self, template, work string, dry, verify, del bool
 			b, _ := os.ReadFile(hydPath)
 			os.WriteFile(hydPath, b[:len(b)-1-rng.Intn(20)], 0o644)
 		}
+		if fault == fPreCorrupt {
+			// flip a byte inside the payload of the first block: complete block, wrong checksum
+			b, _ := os.ReadFile(hydPath)
+			off := v2.FileHeaderSize + len("old/target/file") + v2.BlockHeaderSize + 3
+			if off < len(b) {
+				b[off] ^= 0x5a
+			}
+			os.WriteFile(hydPath, b, 0o644)
+		}
 		pre = hydTerm(in, hydPath)
 	case fPreGarbage:
-		os.WriteFile(hydPath, rng.Bytes(10+rng.Intn(100)), 0o644)
-		pre = "(Some FBad)"
+		os.WriteFile(hydPath, rng.Bytes(rng.Intn(140)), 0o644) // shorter than a header: re-created; longer: invalid magic
+		pre = hydTerm(in, hydPath)
 	case fGarbledChunk:
 		if c := chunks(); len(c) > 0 {
 			os.WriteFile(c[rng.Intn(len(c))], rng.Bytes(20+rng.Intn(200)), 0o644)
@@ -588,7 +612,7 @@ func main() {
 	}
 	run := common.NewRun(a, "C23", "HV.Storage.C23Migrate")
 	run.Shard = 100
-	run.Meta.Rule = "case = one V1 folder written by the real V1 chronicler (random write/modify/real-delete/shadow-delete history, max file size 256 B / 4 KiB / 64 KiB, restarts) migrated by the real migrator with one flag combination and one fault kind, V1 Load before vs V2 chronicler Load after compared on keys, canonical gob values and stored name; non-trivial = the folder has >= 2 chunk files or a fault (pre-existing .hyd, garbled/truncated chunk, undecodable segment, foreign file, missing meta, duplicate key across chunks, RLIMIT_FSIZE during the V2 write) was injected"
+	run.Meta.Rule = "case = one V1 folder written by the real V1 chronicler (random write/modify/real-delete/shadow-delete history, max file size 256 B / 4 KiB / 64 KiB, restarts) migrated by the real migrator with one flag combination and one fault kind, V1 Load before vs V2 chronicler Load after compared on keys, canonical gob values and stored name; non-trivial = the folder has >= 2 chunk files or a fault (pre-existing .hyd: valid, torn tail, corrupt block, garbage shorter or longer than a header; garbled/truncated chunk, undecodable segment, foreign file, missing meta, duplicate key across chunks, RLIMIT_FSIZE during the V2 write) was injected"
 	rng := common.NewRng(a.Seed, "C23")
 	work, err := os.MkdirTemp("", "c23-")
 	if err != nil {
